@@ -1,6 +1,7 @@
 import sys
 
 import python_minifier.ast_compat as ast
+from python_minifier.ast_annotation import set_parent
 
 from python_minifier.transforms.suite_transformer import SuiteTransformer
 from python_minifier.util import is_constant_node
@@ -49,7 +50,15 @@ class RemoveDebug(SuiteTransformer):
 
     def suite(self, node_list, parent):
 
-        without_debug = [self.visit(a) for a in filter(lambda n: not self.can_remove(n), node_list)]
+        without_debug = []
+        for node in node_list:
+            if not self.can_remove(node):
+                without_debug.append(self.visit(node))
+            elif node.orelse:
+                # The else branch is what runs when __debug__ is False, so it must be kept
+                for statement in self.suite(node.orelse, parent=node):
+                    set_parent(statement, parent)
+                    without_debug.append(statement)
 
         if len(without_debug) == 0:
             if isinstance(parent, ast.Module):
